@@ -58,9 +58,12 @@ def run(lib, fn, case, fill=0x00, place=None, A=None):
         argv = []
         outs = []       # (name, kind, buf, off, size)
         tapes = []
+        nul = set(case.get('_null', ()))      # C09 NULL-pointer sweep: these pointer arguments are passed as NULL (lengths keep their value)
         for spec in fn.args:
             kind, name = spec[0], spec[1]
-            if kind == 'in':
+            if name in nul and kind in ('in', 'out', 'io', 'u16in', 'u16out', 'str', 'outsz'):
+                argv.append(0)
+            elif kind == 'in':
                 v = case.get(name)
                 if v is None:
                     argv.append(0)
